@@ -34,14 +34,14 @@ M = [
      "            hash_outputs + self.locktime.to_bytes(4, 'little') + hash_type.to_bytes(4, 'little')",
      "            hash_outputs + (0).to_bytes(4, 'little') + hash_type.to_bytes(4, 'little')"),
     ('C07', 'recipient-short-paid-by-one-when-many-outputs', 'bitcoinlib/wallets.py',
-     "                transaction.add_output(value, addr, change=False)",
-     "                transaction.add_output(value - (1 if len(output_arr) > 3 else 0), addr, change=False)"),
+     "                value = value_to_satoshi(o[1], network=transaction.network)\n                amount_total_output += value",
+     "                value = value_to_satoshi(o[1], network=transaction.network) - (1 if len(output_arr) > 3 else 0)\n                amount_total_output += value"),
     ('C07', 'min-confirms-ignored-in-selection', 'bitcoinlib/wallets.py',
      "            selected_utxos = self.select_inputs(amount_total_output + fee_estimate, transaction.network.dust_amount,\n                                                input_key_id, account_id, network, min_confirms, max_utxos, False)",
      "            selected_utxos = self.select_inputs(amount_total_output + fee_estimate, transaction.network.dust_amount,\n                                                input_key_id, account_id, network, 0, max_utxos, False)"),
     ('C08', 'spent-flag-not-set-after-send', 'bitcoinlib/wallets.py',
-     "                for u in utxos:\n                    u.spent = True\n            self.hdwallet._commit()\n            self.hdwallet._balance_update(network=self.network.name)",
-     "                for u in utxos[:(0 if inp.index_n else None)]:\n                    u.spent = True\n            self.hdwallet._commit()\n            self.hdwallet._balance_update(network=self.network.name)"),
+     "                for u in utxos:\n                    u.spent = True\n\n            self.hdwallet._commit()\n            self.hdwallet._balance_update(network=self.network.name)",
+     "                for u in utxos[:(0 if inp.index_n else None)]:\n                    u.spent = True\n\n            self.hdwallet._commit()\n            self.hdwallet._balance_update(network=self.network.name)"),
     ('C08', 'rescan-resurrects-spent-outputs', 'bitcoinlib/wallets.py',
      "                        utxo_record.spent = bool(spent_in_db.count())",
      "                        utxo_record.spent = False"),
